@@ -495,6 +495,30 @@ async def post_checks(ctx, sa, eng, ar, path, prog, k, outcome, desc):
     except Exception as e:  # noqa
         ctx.violation("cancel-engine-unusable", f"connect()+select after cancellation at {k} failed: {e!r}", desc)
         return
+    # "later operations on the engine work": a richer follow-up than one SELECT - the
+    # engine must behave like a freshly initialised one (isolation level options, a
+    # write transaction, pool accounting afterwards)
+    try:
+        async with eng.connect() as c:
+            c2 = await c.execution_options(isolation_level="AUTOCOMMIT")
+            await c2.execute(sa.text("select 1"))
+            lvl = await c2.get_isolation_level()
+        async with eng.connect() as c:
+            dflt = c.default_isolation_level
+            lvl2 = await c.get_isolation_level()
+            async with c.begin():
+                await c.execute(sa.text("insert into t (id, v, txn) values (9999, 'post', -1)"))
+        async with eng.connect() as c:
+            n = (await c.execute(sa.text("select count(*) from t where id = 9999"))).scalar()
+        ctx.count("followup_programs")
+        # (sqlite reports the pragma-based level, so "AUTOCOMMIT" is not expected back in lvl)
+        if lvl2 != dflt or n != 1:
+            ctx.violation("cancel-followup-wrong-result", f"after cancellation at {k}: autocommit level={lvl} default={dflt} level={lvl2} inserted={n}", desc)
+    except Exception as e:  # noqa
+        ctx.violation(f"cancel-followup-failed:{type(e).__name__}", f"follow-up operations after cancellation at {k} failed: {e!r}", desc)
+        return
+    if pool.checkedout() != 0:
+        ctx.violation("cancel-followup-checkedout-nonzero", f"pool.checkedout()={pool.checkedout()} after follow-up operations, cancellation at {k}", desc)
     present = {}
     for rid, txn in rows:
         present.setdefault(txn, set()).add(rid)
@@ -518,7 +542,7 @@ def part_equivalence(ctx, sa, orm, aio, rng):
     md, t, Row, reg = make_tables()
     n = ctx.pick({"quick": 40, "thorough": 1200})
     for i in range(n):
-        if not ctx.budget_ok():
+        if i >= 3 and not ctx.budget_ok(0.35):
             break
         prog = gen_program(rng)
         p1, p2 = ctx.tmppath(".db"), ctx.tmppath(".db")
@@ -557,7 +581,7 @@ def part_cancel(ctx, sa, orm, aio, rng):
     md, t, Row, reg = make_tables()
     nprog = ctx.pick({"quick": 14, "thorough": 400})
     for i in range(nprog):
-        if not ctx.budget_ok():
+        if i >= 1 and not ctx.budget_ok():
             break
         prog = gen_program(rng)
         path = ctx.tmppath(".db")
@@ -588,7 +612,7 @@ def part_cancel(ctx, sa, orm, aio, rng):
         ctx.maxi("max_suspensions_in_a_program", nsusp)
         has_write = "'insert'" in repr(prog) or "'add'" in repr(prog)
         for k in range(1, nsusp + 1):
-            if not ctx.budget_ok():
+            if (i >= 1 or k > 12) and not ctx.budget_ok():
                 break
             asyncio.run(one(k))
             ctx.case({"prog": prog, "k": k}, nontrivial=has_write and nsusp >= 6)
